@@ -832,7 +832,38 @@ func ruleWRElemwise(p *Prog, r *Reporter) {
 			continue
 		}
 		name := p.FuncName(fn)
-		for _, rl := range rangeLoops(fn) {
+		// converters are pure re-encodings: no arithmetic on the converted scalars (only loop counters)
+		rls := rangeLoops(fn)
+		for _, b := range fn.Blocks {
+			for _, in := range b.Instrs {
+				bo, ok := in.(*ssa.BinOp)
+				if !ok {
+					continue
+				}
+				switch bo.Op {
+				case token.ADD, token.SUB, token.MUL, token.QUO, token.REM, token.SHL, token.SHR, token.AND, token.OR, token.XOR, token.AND_NOT:
+				default:
+					continue
+				}
+				if _, _, isInt := intWidth(p, bo.Type()); !isInt {
+					continue
+				}
+				counter := false
+				for _, rl := range rls {
+					if bo == rl.incr {
+						counter = true
+					}
+				}
+				if !counter {
+					r.Bad(p.instrPos(bo), name, "arithmetic "+normaliseD(shortD(bo)), "a wire converter computes with a converted value instead of re-encoding it unchanged")
+				}
+			}
+		}
+		for _, rl := range rls {
+			if sl, isSl := rl.seq.(*ssa.Slice); isSl && (sl.Low != nil || sl.High != nil) {
+				r.Bad(p.instrPos(rl.header.Instrs[0]), name, "loop over "+normaliseD(shortD(rl.seq)), "an element-wise conversion ranges over a sub-slice of its source: elements outside it are dropped")
+				continue
+			}
 			// element writes inside the loop: out[i] = x (i the loop index) or out = append(out, x)
 			writes := blockSet{}
 			n := 0
